@@ -79,6 +79,9 @@ type Contract struct {
 	Guards      []*Clause
 	Checks      []*Clause
 	Lenient     bool
+	// closures: facts about the captured variables and the creator's parameters, proved where the
+	// closure is created and assumed in its body
+	Captures []*Clause
 }
 
 type ContractSet struct {
@@ -93,7 +96,7 @@ var directiveRe = regexp.MustCompile(`^([a-z-]+)(\[[A-Za-z0-9_.:@,-]+\])?(\s+|$)
 var knownDirectives = map[string]bool{"func": true, "extern": true, "property": true, "requires": true, "ensures": true,
 	"modifies": true, "loop": true, "spec": true, "nooverflow": true, "nopanic": true, "inline": true, "assume": true, "pure": true,
 	"noreturn": true, "nilrecv": true, "lemma": true, "var": true, "assumes": true, "shows": true, "uses": true, "iface": true,
-	"bounded": true, "note": true, "ghost": true, "hint": true, "package": true, "opaque": true, "reveal": true, "guard": true, "check": true, "lenient": true, "depends": true}
+	"bounded": true, "note": true, "ghost": true, "hint": true, "package": true, "opaque": true, "reveal": true, "guard": true, "check": true, "lenient": true, "depends": true, "captures": true}
 
 // loadContracts parses every zz_verif_contracts.go below root/src.
 func loadContracts(root string) (*ContractSet, error) {
@@ -240,13 +243,15 @@ func (cs *ContractSet) parseFile(path, pkg string) error {
 		switch d.kw {
 		case "property":
 			cur.Props = append(cur.Props, strings.Fields(d.text)...)
-		case "requires", "ensures":
+		case "requires", "ensures", "captures":
 			n, err := parseSpec(d.text)
 			if err != nil {
 				return perr(d, err)
 			}
 			cl := &Clause{Name: d.name, Expr: n, Src: d.text}
-			if d.kw == "requires" {
+			if d.kw == "captures" {
+				cur.Captures = append(cur.Captures, cl)
+			} else if d.kw == "requires" {
 				cur.Requires = append(cur.Requires, cl)
 			} else {
 				cur.Ensures = append(cur.Ensures, cl)
